@@ -12,6 +12,7 @@ mod c06;
 mod c04;
 mod c13;
 mod c05;
+mod c07;
 
 fn main() {
     common::install_panic_hook();
@@ -31,6 +32,7 @@ fn main() {
         "sender_async" => c04::run(&args, true),
         "group" => c13::run(&args),
         "reject" => c05::run(&args),
+        "foci" => c07::run(&args),
         s => {
             eprintln!("unknown stream {s}");
             std::process::exit(2);
